@@ -46,23 +46,28 @@ MaxDiff(ticks, k) == IF k = 0 THEN 0
                      ELSE LET d == IF ticks[k] >= 0 THEN ticks[k] \div 60 ELSE 0 IN Max(d, MaxDiff(ticks, k - 1))
 PauseLoc(cmd, M, D1) == IF cmd.extend THEN [t |-> M.t, i |-> M.i]
                         ELSE [t |-> M.t, i |-> Len(D1[M.t].entries)]
-TickDataOK(cmd, M, F, k) ==      \* F[1]: after start; F[k + 1]: after the k-th reading
-    LET P1 == ParseDoc(F[1])  Pk == ParseDoc(F[k + 1])
-        D1 == DocData(P1)  Dk == DocData(Pk)
+(* B[k] is the file the k-th iteration finds: what the previous iteration left plus whatever the    *)
+(* environment appended meanwhile (cmd.edits).  The iteration must start from that file (the file is  *)
+(* the only state) - the records and lines the environment added survive like all others.            *)
+TickDataOK(cmd, M, F, B, k) ==      \* F[1]: after start; F[k + 1]: after the k-th reading
+    LET P1 == ParseDoc(F[1])  Pk == ParseDoc(F[k + 1])  Pb == ParseDoc(B[k])
+        D1 == DocData(P1)  Dk == DocData(Pk)  Db == DocData(Pb)
         loc == PauseLoc(cmd, M, D1)
         e1 == D1[loc.t].entries[loc.i]
-    IN  /\ P1.ok /\ Pk.ok /\ Len(Dk) = Len(D1)
-        /\ \A t \in 1..Len(D1) : t # loc.t => Dk[t] = D1[t]
-        /\ SameHead(Dk[loc.t], D1[loc.t]) /\ Len(Dk[loc.t].entries) = Len(D1[loc.t].entries)
-        /\ \A i \in 1..Len(D1[loc.t].entries) : i # loc.i => Dk[loc.t].entries[i] = D1[loc.t].entries[i]
+    IN  /\ P1.ok /\ Pk.ok /\ Pb.ok /\ Len(Dk) = Len(Db)
+        /\ \A t \in 1..Len(Db) : t # loc.t => Dk[t] = Db[t]
+        /\ SameHead(Dk[loc.t], Db[loc.t]) /\ Len(Dk[loc.t].entries) = Len(Db[loc.t].entries)
+        /\ \A i \in 1..Len(Db[loc.t].entries) : i # loc.i => Dk[loc.t].entries[i] = Db[loc.t].entries[i]
         /\ LET x == Dk[loc.t].entries[loc.i] IN
            x.kind = "dur" /\ x.summary = e1.summary /\ x.a = e1.a - MaxDiff(cmd.ticks, k)
-TickFrameOK(cmd, M, F, k) ==
-    LET P1 == ParseDoc(F[1])
-        loc == PauseLoc(cmd, M, DocData(P1))
-        lc == Loc(P1, loc.t, loc.i)
-        P == P1.lines  Q == SplitLines(F[k + 1])
-    IN  F[k + 1] = F[1] \/ (Len(Q) = Len(P) /\ FrameReplace(P, Q, lc.f, lc.f, lc.e.valFrom, lc.e.valTo, FALSE, Len(P), Len(P)))
+TickFrameOK(cmd, M, F, B, k) ==
+    LET Pb == ParseDoc(B[k])
+        loc == PauseLoc(cmd, M, DocData(ParseDoc(F[1])))
+        lc == Loc(Pb, loc.t, loc.i)
+        P == Pb.lines  Q == SplitLines(F[k + 1])
+    IN  F[k + 1] = B[k] \/ (Len(Q) = Len(P) /\ FrameReplace(P, Q, lc.f, lc.f, lc.e.valFrom, lc.e.valTo, FALSE, Len(P), Len(P)))
+(* the driver played the environment as the model says *)
+EnvOK(cmd, F, B) == Len(B) = Len(cmd.ticks) /\ \A k \in 1..Len(B) : B[k] = ExtAppend(F[k], EditAt(cmd, k))
 
 Holds(r, ev, PP, M) ==
     LET c == ev.case  o == ev.obs  cmd == ev.case.cmd  live == ev.panic = ""
@@ -70,19 +75,21 @@ Holds(r, ev, PP, M) ==
         P == PP.lines
         Q == SplitLines(o.post)
         judged == live /\ okPre /\ M.st # "unspec" /\ ~c.nofile
+        quiet == cmd.edits = <<>>      \* nobody else wrote to the file meanwhile (otherwise the tick rules judge)
     IN
-    CASE r = "C03.Frame" -> judged /\ o.code = 0 /\ M.st = "ok" => FrameOK(cmd, M, PP, P, Q)
+    CASE r = "C03.Frame" -> judged /\ quiet /\ o.code = 0 /\ M.st = "ok" => FrameOK(cmd, M, PP, P, Q)
       [] r = "C04.Accept" -> judged /\ M.st = "ok" => o.code = 0
       [] r = "C04.Reject" -> judged /\ M.st = "fail" => o.code # 0 /\ o.post = c.pre
-      [] r = "C04.Effect" -> judged /\ M.st = "ok" /\ o.code = 0 /\ o.parsed_ok =>
+      [] r = "C04.Effect" -> judged /\ quiet /\ M.st = "ok" /\ o.code = 0 /\ o.parsed_ok =>
             EffectOK(M, DocData(PP), FromObs(o.records))
       [] r = "C04.Ticks" -> judged /\ cmd.op = "pause" /\ M.st = "ok" /\ o.code = 0 =>
             LET F == o.tick_files IN
             /\ Len(F) = Len(cmd.ticks) + 1
             /\ F[Len(F)] = o.post
-            /\ \A k \in 1..Len(cmd.ticks) : TickDataOK(cmd, M, F, k)
-      [] r = "C03.Ticks" -> judged /\ cmd.op = "pause" /\ M.st = "ok" /\ o.code = 0 /\ Len(o.tick_files) = Len(cmd.ticks) + 1 =>
-            \A k \in 1..Len(cmd.ticks) : TickFrameOK(cmd, M, o.tick_files, k)
+            /\ EnvOK(cmd, F, o.tick_pre) => \A k \in 1..Len(cmd.ticks) : TickDataOK(cmd, M, F, o.tick_pre, k)
+      [] r = "C03.Ticks" -> judged /\ cmd.op = "pause" /\ M.st = "ok" /\ o.code = 0 /\ Len(o.tick_files) = Len(cmd.ticks) + 1
+                            /\ EnvOK(cmd, o.tick_files, o.tick_pre) =>
+            \A k \in 1..Len(cmd.ticks) : TickFrameOK(cmd, M, o.tick_files, o.tick_pre, k)
       (* drift metric, never a verdict: does the real result equal the prediction of the tight text-level model? *)
       [] r = "X.Predicted" -> live /\ c.pre = c.predpre /\ c.pred.st # "unspec" =>
             IF c.pred.st = "ok" THEN o.code = 0 /\ o.post = c.pred.text ELSE o.code # 0
@@ -90,7 +97,7 @@ Holds(r, ev, PP, M) ==
       [] r = "C05.Atomic" -> live /\ o.code # 0 => o.post = c.pre /\ ~o.touched
       [] r = "C05.Valid" -> live /\ o.code = 0 => o.parsed_ok /\ ParseDoc(o.post).status # "Violating"
       [] r = "C05.ExitCode" -> live /\ (PP.status = "Violating" \/ c.nofile) => o.code # 0 /\ o.post = c.pre
-      [] r = "C11.Style" -> judged /\ o.code = 0 /\ M.st = "ok" /\ FrameOK(cmd, M, PP, P, Q) => StyleOK(cmd, c.cfg, M, PP, P, Q)
+      [] r = "C11.Style" -> judged /\ quiet /\ o.code = 0 /\ M.st = "ok" /\ FrameOK(cmd, M, PP, P, Q) => StyleOK(cmd, c.cfg, M, PP, P, Q)
       [] r = "C11.Deterministic" -> live => o.repeat_equal
       [] r = "C11.Accepted" -> judged /\ M.st = "ok" => o.code = 0 /\ o.parsed_ok
       [] r = "C17.NoPanic" -> ev.panic = ""
